@@ -128,8 +128,9 @@ def pool_check(ctx):
     # recorded under concurrency; an outcome that comes out again alone deviates from the specification
     # deterministically and belongs to the property that pins it (counted, not reported here)
     CONTEXT = ('object changed between two of its own calls', 'Vector() changed the object', 'scoring changed the object', 'Get changed the object')
-    mine = [v for v in v2 if any(k in v['kind'] for k in CONTEXT)]
-    rest = [v for v in v2 if not any(k in v['kind'] for k in CONTEXT)]
+    noev = lambda v: not isinstance(v.get('replay'), dict) or 'event' not in v['replay']   # e.g. a call that never returned
+    mine = [v for v in v2 if noev(v) or any(k in v['kind'] for k in CONTEXT)]
+    rest = [v for v in v2 if not noev(v) and not any(k in v['kind'] for k in CONTEXT)]
     if rest:
         evp = os.path.join(ctx.work, 'retrace-in.json')
         json.dump([v['replay']['event'] for v in rest[:2000]], open(evp, 'w'))
@@ -149,6 +150,16 @@ def pool_check(ctx):
         open(p, 'w').write(racelog)
         viol.append(dict(property='C14', kind='data race reported by the Go race detector', version='', input='8 goroutines driving all exported functions of all four packages',
                          expected='no race', observed=racelog[:1500], replay=dict(mode='race', report=p)))
+    # (i) shared read-only objects: every CPU reads the SAME objects through every read-only method; plain and -race build
+    for exe in (None, race):
+        sr = ctx.harness('sharedread', prop='C14', aux=json.dumps(tabs), exe=exe, n=(30000 if thorough else 4000) // (1 if exe is None else 4), env={'GORACE': 'exitcode=0 halt_on_error=0'})
+        viol += sr['violations']
+        cov['compared']['read-only calls on shared objects' + ('' if exe is None else ' (race build)')] = sr['evaluations']
+        if 'DATA RACE' in sr.get('_stderr', ''):
+            pth = os.path.join(core.EVID, 'race-report-C14.txt')
+            open(pth, 'w').write(sr['_stderr'])
+            viol.append(dict(property='C14', kind='data race reported by the Go race detector', version='', input='every CPU reading the same objects through Get / Vector / scores / Nomenclature',
+                             expected='no race', observed=sr['_stderr'][:1500], replay=dict(mode='race', report=pth)))
     # (h) parse-and-hold: results kept by their owners while every CPU parses valid and failing vectors; plain and -race build
     for exe, label in ((None, 'held parse results re-read under concurrency'), (race, 'the same under the race detector')):
         sh = ctx.harness('conchold', prop='C14', aux=json.dumps(tabs), exe=exe, n=(400000 if thorough else 60000) // (1 if exe is None else 4),
